@@ -62,6 +62,15 @@ def make_case(rng, kind):
     t = case['types']['t0']
     if rng.random() < 0.5:
         gi.random_setup_options(rng, case)
+    # boundary conditions: flow rate, outlet temperature or temperature rise (the latter two make set-up estimate a flow rate)
+    for a in case['assignment']:
+        u = rng.random()
+        if u < 0.35:
+            a.pop('flowrate')
+            a['outlet_temp'] = round(case['core']['coolant_inlet_temp'] + rng.uniform(80, 160), 2)
+        elif u < 0.6:
+            a.pop('flowrate')
+            a['delta_temp'] = round(rng.uniform(80, 160), 2)
     if kind == "fuel":
         t['FuelModel'] = dict(FUEL)
     elif kind == "pin":
